@@ -9,7 +9,13 @@ import runner  # noqa: E402
 
 
 def main():
-    hits = vlib.forbidden_scan()
+    scan = []
+    for pid in registry.PROPS:
+        P = importlib.import_module("props." + pid.lower()).PROPERTY
+        P._defaults()
+        for t in P.model_targets + P.proof_targets:
+            vlib.coq_deps(t[:-3] + ".v", scan)
+    hits = vlib.forbidden_scan(scan)
     if hits:
         print("forbidden vernacular:", hits[:10])
         return 1
